@@ -505,6 +505,11 @@ class ExprMixin:
         self.exc_stack = [sj.id]
         fr = Frame(func, env.get("self"), func.cls)
         fr.env = dict(env)
+        # constructor arguments are per-instance values: symbolic fields of the instance (so that a record built from
+        # them, e.g. a (group, name) location tuple, still addresses THIS object's resource)
+        if env.get("self") is not None:
+            for a_ in func.node.args.args[1:] + func.node.args.kwonlyargs:
+                fr.env.setdefault(a_.arg, Val("field", env["self"], "ctor:" + a_.arg))
         fr.ret_join = sj.id
         self.frames = [fr]
         self._force_oid = oid
@@ -660,6 +665,13 @@ class ExprMixin:
         ci = self.as_inst(base)
         if ci is not None and name in ("_data", "_root", "_filename"):
             return self.ev_attr(ci, name, preds)
+        if k == "dict":
+            for kk, vv in base.args:
+                if kk == Val("const", name):
+                    return vv, preds
+        if name in self.record_field_names() and cattr_origin(base) is not None and k in ("sub", "call", "phi", "elem"):
+            # a field of a record kept in class-wide state: same as the dict entry it replaces
+            return self.load_sub(base, Val("const", name), preds)
         return Val("field", base, name), preds
 
     # ------------------------------------------------------------------ ev
@@ -1226,6 +1238,8 @@ class ExprMixin:
             return self.node("cs_write", preds, name=name, op="rebind", cls=cv, target=Val("cattr", cv, name), value=v)
         ca = cattr_origin(base)
         if ca is not None:
+            if name in self.record_field_names():
+                return self.store_sub(base, Val("const", name), v, preds)
             return self.node("cs_write", preds, name=ca.args[1], op="setattr:" + name, cls=ca.args[0], target=base, value=v)
         return self.node("attr_store", preds, base=base, name=name, value=v, op="set")
 
@@ -1389,7 +1403,66 @@ class ExprMixin:
             return self.ext_call("builtins.open", None, args, kwargs, preds, exc=("OSError",))
         return self.ext_call(name, None, args, kwargs, preds)
 
+    def record_fields(self, cls):
+        """[(field, default expr or None)] if ``cls`` is a plain record (dataclass, NamedTuple, or a slots / simple class
+        whose __init__ only copies its parameters into same-named attributes); else None.  Records are modelled as
+        dicts keyed by field name, so a buffer entry kept in such a class is analysed like the dict it replaces."""
+        cache = self.__dict__.setdefault("_record_cache", {})
+        if cls in cache:
+            return cache[cls]
+        res = None
+        node = cls.node
+        decos = [ast.unparse(d).split("(")[0].split(".")[-1] for d in node.decorator_list]
+        bases = [ast.unparse(b).split(".")[-1] for b in node.bases]
+        if "dataclass" in decos or "NamedTuple" in bases:
+            res = [(st.target.id, st.value) for st in node.body if isinstance(st, ast.AnnAssign) and isinstance(st.target, ast.Name)]
+        else:
+            init = next((st for st in node.body if isinstance(st, ast.FunctionDef) and st.name == "__init__"), None)
+            others = [st for st in node.body if isinstance(st, ast.FunctionDef) and st.name not in ("__init__", "__repr__", "__eq__")]
+            if init is not None and not others and not node.bases:
+                params = [a.arg for a in init.args.args][1:]
+                body = [st for st in init.body if not (isinstance(st, ast.Expr) and isinstance(st.value, ast.Constant))]
+                ok = bool(params) and len(body) == len(params)
+                for st in body:
+                    if not (isinstance(st, ast.Assign) and len(st.targets) == 1 and isinstance(st.targets[0], ast.Attribute) and isinstance(st.targets[0].value, ast.Name)
+                            and st.targets[0].value.id == "self" and isinstance(st.value, ast.Name) and st.value.id == st.targets[0].attr and st.value.id in params):
+                        ok = False
+                if ok:
+                    defaults = [None] * (len(params) - len(init.args.defaults)) + list(init.args.defaults)
+                    res = list(zip(params, defaults))
+        cache[cls] = res
+        if res:
+            self.model.__dict__.setdefault("_record_field_names", set()).update(f for f, _ in res)
+        return res
+
+    def record_field_names(self):
+        m = self.model
+        if not hasattr(m, "_record_scan_done"):
+            m._record_scan_done = True
+            for c in m.class_order:
+                if c.module.name != ABC_MOD and not c.is_subclass_of("SyncedCollection"):
+                    try:
+                        self.record_fields(c)
+                    except Exception:
+                        pass
+        return getattr(m, "_record_field_names", set())
+
     def instantiate(self, cls, args, kwargs, preds):
+        if isinstance(cls, ClassInfo) and not cls.is_subclass_of("SyncedCollection"):
+            rf = self.record_fields(cls)
+            if rf:
+                items = []
+                for i, (fname, dflt) in enumerate(rf):
+                    if i < len(args):
+                        v = args[i]
+                    elif fname in kwargs:
+                        v = kwargs[fname]
+                    elif dflt is not None:
+                        v, preds = self.ev(dflt, preds)
+                    else:
+                        v = NONE
+                    items.append((Val("const", fname), v))
+                return Val("dict", *items), preds
         if isinstance(cls, ExtClass):
             last = cls.name.split(".")[-1]
             return Val("call", "new:" + last, None, tuple(args), self.kw_tuple(kwargs)), preds
